@@ -21,6 +21,10 @@ def main():
     st, v, w = parser.parse("# a\n")
     assert st == "ok"
     print("vf setup ok: pymarkdown at", os.path.dirname(pymarkdown.__file__), "markdown-it", markdown_it.__version__)
+    from .tools import selftest
+
+    if selftest.main() != 0:
+        raise SystemExit("oracle self-test failed")
 
 
 if __name__ == "__main__":
